@@ -38,10 +38,11 @@ MANIFEST = {
             "code follows the recommendation (C08_s2n_impl_eq_spec_plain, C08_n2s_impl_eq_spec_int, "
             "C08_floor_impl_eq_spec_nonneg, C08_string_length_ascii) and refutation witnesses elsewhere. "
             "The same evaluator carries one switch per construct in which xpath.c departs from the recommendation "
-            "(impl_flags, 23 switches). Tie to xpath.c: differential testing only - lyxp_eval()/lyd_eval_xpath4() on generated "
+            "(impl_flags, 25 switches). Tie to xpath.c: differential testing only - lyxp_eval()/lyd_eval_xpath4() on generated "
             "expressions x trees x context nodes must answer the reference result, or the as-coded result, in which case the "
-            "needed switches name a LISTED deviation (known_findings.d/xpath.json, 26 entries, each with a replay on the real "
-            "library); any other answer is a violation. Oracle on the implementation itself: key predicates answered by the "
+            "needed switches name a LISTED deviation (known_findings.d/xpath.json, 30 entries, each with a replay on the real "
+            "library; a switch whose canonical witness the tree under test answers as the recommendation says is put back "
+            "automatically, so repaired deviations need no model change); any other answer is a violation. Oracle on the implementation itself: key predicates answered by the "
             "hash lookup select the same nodes as forced generic evaluation, on lists without and with the children hash "
             "table.",
     "note": "Not modelled: deref(), re-match(), derived-from(-or-self)(), enum-value(), bit-is-set(), lang(), id(), "
